@@ -57,11 +57,25 @@ class Logger:
 
     def __init__(self, sources: Dict[str, str], enable_file_paths: bool = True) -> None:
         self.sources = sources
+        self.sources_by_path: Dict[str, str] = {}
         self.enable_file_paths = enable_file_paths
 
-    def add_source(self, name: str, source: str) -> None:
-        """Register source files."""
+    def add_source(self, name: str, source: str, *paths: Any) -> None:
+        """Register source files.
+
+        Files in different directories can share a name: the optional full paths
+        (as stored in the nodes' metadata) tell them apart.
+        """
         self.sources[name] = source
+        for path in paths:
+            self.sources_by_path[str(path)] = source
+
+    def get_source(self, filename: str) -> str:
+        """Get the source of the file a node was parsed from."""
+        if str(filename) in self.sources_by_path:
+            return self.sources_by_path[str(filename)]
+
+        return self.sources[Path(filename).name]
 
     def log_location(self, source: str, line: int) -> str:
         """Log source code location."""
@@ -75,7 +89,7 @@ class Logger:
 
     def log_node(self, node: Any) -> str:
         """Log fcp node."""
-        lines = self.sources[Path(node.meta.filename).name].split("\n")
+        lines = self.get_source(node.meta.filename).split("\n")
         return self.log_location(
             lines[node.meta.line - 1],
             node.meta.line,
